@@ -168,6 +168,31 @@ Proof.
   unfold step, fault, do_close, wclose, reported; cbn. destruct ch, w; cbn; repeat eexists.
 Qed.
 
+(* ---- incarnations: every successful Open() - the first or a re-open after Close() / a fault - establishes _state = Open;
+   an established incarnation raises on_faulted on every failure and ends only with on_faulted or the owner's Close() ---- *)
+Lemma open_ok s :
+  opn s = Some OConn ->
+  exists s', step s (LOConn true) = Some (s', []) /\ cst s' = Open /\ sk s' = SConn /\ reported s' = Open /\ opn s' = None.
+Proof.
+  intros O. destruct s as [k w ch pr ores op sn]; cbn in *. subst op. eexists. cbn. repeat split.
+Qed.
+
+Lemma established_reported s l : cst s = Open -> pre_reported s l = Open.
+Proof.
+  intros C. destruct l; cbn; unfold reported; try assumption; destruct (sk s); try reflexivity; assumption.
+Qed.
+
+Definition is_close (l : label) : bool := match l with LClose _ => true | _ => false end.
+
+Lemma established_ends s l s' e :
+  step s l = Some (s', e) -> cst s = Open ->
+  cst s' = Open \/ (cst s' = Closed /\ (nfaults e = 1 \/ is_close l = true)).
+Proof.
+  intros H C. destruct s as [k w ch pr ores op sn]; cbn in C. subst ch.
+  destruct l; cbn in H; unfold exn_path, fault, timeout_enter, do_close, wclose, reported in H; cbn in H; brk; cbn;
+  first [left; reflexivity | right; split; [reflexivity | first [left; reflexivity | right; reflexivity]]].
+Qed.
+
 Lemma timeout_reopen_ok s c :
   proc s = Some (c, Reconn) ->
   exists s', step s (LReconn true) = Some (s', [Post c KTimeout]) /\ proc s' = None /\ sk s' = SConn /\ reported s' = Open /\
